@@ -492,8 +492,13 @@ static void s_end_probe(void) {
     s_probe = NULL;
 }
 
+/* *p_value is pre-filled with this before every lookup: a miss must store NULL ("If not found ... *p_value will be NULL") */
+static struct hval s_unset_value;
+
 static void s_print_val(const char *what, void *p) {
-    if (p && !s_val_live(p)) {
+    if (p == &s_unset_value) {
+        printf("P %s UNSET\n", what);
+    } else if (p && !s_val_live(p)) {
         ++s_mon_dead_result;
         printf("P %s ?\n", what);
     } else if (p) {
@@ -565,7 +570,7 @@ int main(void) {
             s_print_state();
         } else if (!strcmp(t[0], "find") && n == 2) {
             const void *probe = s_begin_probe((unsigned)atoi(t[1]));
-            void *p = NULL;
+            void *p = &s_unset_value;
             int rc = s_kind == K_LHT ? aws_linked_hash_table_find(&s_lht, probe, &p) : aws_cache_find(s_cache, probe, &p);
             s_end_probe();
             HC_CHECK(rc == AWS_OP_SUCCESS);
@@ -573,7 +578,7 @@ int main(void) {
             s_print_state();
         } else if (!strcmp(t[0], "findmv") && n == 2 && s_kind == K_LHT) {
             const void *probe = s_begin_probe((unsigned)atoi(t[1]));
-            void *p = NULL;
+            void *p = &s_unset_value;
             HC_CHECK(aws_linked_hash_table_find_and_move_to_back(&s_lht, probe, &p) == AWS_OP_SUCCESS);
             s_end_probe();
             s_print_val("findmv", p);
